@@ -208,15 +208,22 @@ def gen_program(rng, conflict=False):
                     return ["+", ["var", rng.choice(loc["cplx"])], realexpr(1)]
                 return base
 
-            if r < 0.05 and (loc["arr"] or loc["ut"]):
+            if r < 0.08 and (loc["arr"] or loc["ut"]):
                 # an accumulator that starts as a (complex or real) scalar and widens to an array / user type:
                 # legal joins, reached in an order that depends on the presentation
                 big = rng.choice(loc["arr"] + loc["ut"])
                 kind = "arr" if big in loc["arr"] else "ut"
                 acc = lhs("acc", "carr" if kind == "arr" else "ut")
                 start = cplxexpr() if (rng.random() < 0.6 and kind == "arr") else realexpr(0)
+                if loc["int"] and rng.random() < 0.4:
+                    # (... + a loop counter: while the other term is unknown the accumulator is provisionally an integer)
+                    start = ["+", start, ["var", rng.choice(loc["int"])]]
                 phases[pn].append(["assign", acc, start])
                 phases[pn].append(["assign", acc, ["+", ["var", acc], ["var", big]]])
+                if kind == "arr" and rng.random() < 0.5:
+                    # ... and handed to a built-in whose result kind is computed from its argument's kind
+                    fn, extra = rng.choice([("<builtin>transpose", [["num", 1]]), ("<builtin>elementwise_abs", [])])
+                    phases[pn].append(["call", [lhs("tr", "carr")], fn, [["var", acc]] + extra, {}])
                 if kind == "arr" and rng.random() < 0.7:
                     # ... and is subscripted (legal: its final kind is an array)
                     phases[pn].append(["assign", lhs("e", "cplx"), ["sub", ["var", acc], ["num", 0]]])
@@ -575,6 +582,16 @@ def replay(witness, rec):
         mon.attach()
         try:
             check_program(witness["prog"], rec, rng, 40, witness.get("class") == "conflict", mon)
+            pr = witness.get("presentation")
+            if pr and witness.get("class") != "conflict":
+                # the very presentation that was recorded (check_program draws its own permutations)
+                prog = witness["prog"]
+                ident = {pn: list(range(len(prog["phases"][pn]))) for pn in prog["order"]}
+                r0 = infer(prog, prog["order"], ident, "frozenset")
+                r = infer(prog, pr["order"], {k: list(v) for k, v in pr["perms"].items()}, pr["mode"])
+                if r[:2] != r0[:2]:
+                    mech = ("order-dependent-success-vs-failure" if r[0] != r0[0] else "order-dependent-table")
+                    rec.violation(mech, f"recorded presentation gives {r[:2]}, identity order gives {r0[:2]}", witness)
         finally:
             mon.detach()
         rec.case(witness["prog"])
